@@ -163,6 +163,16 @@ pub fn exec(actor: &mut Actor, rc: &RunCtx, step: &Value) {
     } else {
         None
     };
+    if op == "rootctx" {
+        let src = geti("src");
+        if src != 0 {
+            call.insert("src".into(), json!(sname(src)));
+        }
+        call.insert("w3c".into(), json!(step["w3c"].as_bool().unwrap_or(false)));
+    }
+    if !step["re"].is_null() {
+        call.insert("re".into(), step["re"].clone());
+    }
     if op == "root" {
         call.insert("tr".into(), json!(hex32(rc.trace(geti("tr")))));
         call.insert("smp".into(), json!(step["smp"].as_bool().unwrap_or(true)));
@@ -211,7 +221,7 @@ pub fn finish_ret(t: usize, ret: &mut Map<String, Value>) {
     ret.insert("parked".into(), json!(parked));
     ret.insert("pushes".into(), json!(acc.pushes));
     if let Some(c) = acc.start_cid {
-        ret.insert("cid".into(), json!(c + 1));
+        ret.insert("cid".into(), json!(rt::cid_out(c)));
     }
 }
 
@@ -253,6 +263,39 @@ fn do_op(
             let ctx = SpanContext::new(TraceId(rc.trace(geti("tr"))), SpanId(rc.rpar(h)))
                 .sampled(step["smp"].as_bool().unwrap_or(true));
             let span = Span::root(sname(h), ctx);
+            if let Some(c) = SpanContext::from_span(&span) {
+                out.insert("id".into(), json!(hex16(c.span_id.0)));
+            }
+            rc.spans.lock().unwrap().insert(h, Arc::new(span));
+        }
+        "rootctx" => {
+            let h = geti("h");
+            let src = geti("src");
+            out.insert("ctx".into(), json!({"some": false}));
+            let ctx = if src == 0 {
+                SpanContext::current_local_parent()
+            } else {
+                get_span(rc, src).and_then(|s| SpanContext::from_span(&s))
+            };
+            out.insert("ctx".into(), ctx_json(ctx));
+            let span = match ctx {
+                Some(c) => {
+                    let c = if step["w3c"].as_bool().unwrap_or(false) {
+                        // through the wire format; a failed decode shows up as a missing trace
+                        match SpanContext::decode_w3c_traceparent(&c.encode_w3c_traceparent()) {
+                            Some(d) => d,
+                            None => {
+                                out.insert("decode_failed".into(), json!(true));
+                                c
+                            }
+                        }
+                    } else {
+                        c
+                    };
+                    Span::root(sname(h), c)
+                }
+                None => Span::noop(),
+            };
             if let Some(c) = SpanContext::from_span(&span) {
                 out.insert("id".into(), json!(hex16(c.span_id.0)));
             }
@@ -336,8 +379,14 @@ fn do_op(
         "lprops" => {
             let cc = Cell::new(0u32);
             let k = own(kvs);
+            let re = step["re"].as_bool().unwrap_or(false);
             LocalSpan::add_properties(|| {
                 cc.set(cc.get() + 1);
+                if re {
+                    // what a closure that logs through a fastrace-aware logger, or calls a
+                    // #[trace] function, does: it calls back into fastrace
+                    let _ = SpanContext::current_local_parent();
+                }
                 k
             });
             out.insert("cc".into(), json!(cc.get()));
@@ -346,8 +395,12 @@ fn do_op(
             Some((n, Held::Local(span))) => {
                 let cc = Cell::new(0u32);
                 let k = own(kvs);
+                let re = step["re"].as_bool().unwrap_or(false);
                 let span = span.with_properties(|| {
                     cc.set(cc.get() + 1);
+                    if re {
+                        let _ = SpanContext::current_local_parent();
+                    }
                     k
                 });
                 out.insert("cc".into(), json!(cc.get()));
